@@ -146,6 +146,14 @@ def ecEdit : Nat → Ed → Bytes → Bytes → R Int
           let ed := ed.bufsSwitch (ed.bufsFind path).toNat
           if pls.headD 0 == 43 then exCommand f ed (pls.drop 1) else some (0, ed)
         else
+          -- when the list is full the last buffer is dropped: not if it has unsaved changes
+          let guard2 : R Bool :=
+            if (!path.isEmpty || ed.cur.isNone) && ed.xwa == 0 then bufsModified ed ed.findRoom (some (strOf "last buffer modified"))
+            else some (false, ed)
+          match guard2 with
+          | none => none
+          | some (true, ed) => some (1, ed)
+          | some (false, ed) =>
           let ed := if !path.isEmpty || ed.cur.isNone then
               let (idx, ed) := ed.bufsOpen path; ed.bufsSwitch idx
             else ed
@@ -442,7 +450,7 @@ def runCmd : Nat → Ed → String → Bytes → Bytes → Bytes → Option Byte
                   match ed.bufs.getD i none with
                   | none => none
                   | some b =>
-                    match lbufSave ed b.lb 0 (-1) b.path (hasBang cmd) b.mtime with
+                    match lbufSaveP ed b.lb 0 (-1) b.path (hasBang cmd) b.mtime with
                     | none => none
                     | some (some err, ed) => some (true, (ed.bufsSwitch i).show err)
                     | some (none, ed) => each g (i + 1) ed
@@ -541,7 +549,7 @@ def ecWrite (ed : Ed) (loc cmd arg : Bytes) : R Int :=
             if path.length < 2 then some (1, ed) else some (0, { ed with unmodelled := true })
           else
             let ts := if cur.path == path then cur.mtime else 0
-            match lbufSave ed cur.lb b.toNat e path (hasBang cmd) ts with
+            match lbufSaveP ed cur.lb b.toNat e path (hasBang cmd) ts with
             | none => none
             | some (some err, ed) => some (1, ed.show err)
             | some (none, ed) =>
